@@ -101,7 +101,7 @@ Definition set_se (l : local) (n : nat) : local :=
 Definition set_ae (l : local) (n : nat) : local :=
   mkLocal (pc l) (job l) (hasres l) (self l) (wc l) (qa l) (se l) n.
 
-Inductive envpc := EIdle | ENotifyGo.
+Inductive envpc := EIdle | ENotifyGo | ENotifyQuit.
 
 Record state := mkState {
   th : tid -> local;
@@ -164,7 +164,7 @@ Inductive eact :=
 | ENotify               (* ... notifier.notify() of startSearch *)
 | EUnponder             (* stop / ponderhit: ponder = infinite = false *)
 | ESpur                 (* setoption: setOptionWhenIdle's notifier.notify() *)
-| EQuit.                (* quit: lock; quitFlag = true; notify; unlock *)
+| EQuit.                (* quit: lock; quitFlag = true; (the notify inside the lock is ENotify) *)
 
 Section Model.
 Variable N : nat.
@@ -400,14 +400,14 @@ Definition estep (s : state) (e : eact) : option state :=
       end
   | ENotify =>
       match epc s with
-      | ENotifyGo => Some (set_epc (set_flag s 0%nat true) EIdle)
-      | _ => None
+      | EIdle => None
+      | _ => Some (set_epc (set_flag s 0%nat true) EIdle)
       end
   | EUnponder => Some (set_ponder s false)
   | ESpur => Some (set_flag s 0%nat true)
   | EQuit =>
       match epc s with
-      | EIdle => if search s || quitf s then None else Some (set_flag (set_quitf s true) 0%nat true)
+      | EIdle => if search s || quitf s then None else Some (set_epc (set_quitf s true) ENotifyQuit)
       | _ => None
       end
   end.
